@@ -97,6 +97,7 @@ type Exec struct {
 	inlinedFns  map[string]bool
 	usedContracts map[string]bool
 	usedExterns map[string]bool
+	sweepSet    map[*ssa.Function]bool
 }
 
 func newExec(p *Prog, db *ContractDB) *Exec {
